@@ -88,6 +88,14 @@ var sliceUniverse = []*sliceType{
 		mk: func() bigslice.Slice { return bigslice.Const(1, []ctxStruct{aCtxStruct}, []string{"a"}) }},
 	{spec: sliceSpec{"IT<int,traceCtx>/p1/sh2", []reflect.Type{tInt, tTrace}, 1, 2},
 		mk: func() bigslice.Slice { return bigslice.Const(2, []int{1, 2}, []traceCtx{aTraceCtx, aTraceCtx}) }},
+	{spec: sliceSpec{"NsI<nStr,int>/p1/sh2", []reflect.Type{tNStr, tInt}, 1, 2},
+		mk: func() bigslice.Slice { return bigslice.Const(2, []nStr{"a", "b"}, []int{1, 2}) }},
+	{spec: sliceSpec{"NiI<nInt,int>/p1/sh2", []reflect.Type{tNInt, tInt}, 1, 2},
+		mk: func() bigslice.Slice { return bigslice.Const(2, []nInt{1, 2}, []int{1, 2}) }},
+	{spec: sliceSpec{"N64I<nI64,int>/p1/sh1", []reflect.Type{tNI64, tInt}, 1, 1},
+		mk: func() bigslice.Slice { return bigslice.Const(1, []nI64{1, 2}, []int{1, 2}) }},
+	{spec: sliceSpec{"LI<int64,int>/p1/sh2", []reflect.Type{tInt64, tInt}, 1, 2},
+		mk: func() bigslice.Slice { return bigslice.Const(2, []int64{1, 2}, []int{1, 2}) }},
 	{spec: sliceSpec{"Z<>/unit(scan)/sh2", nil, 1, 2},
 		mk: func() bigslice.Slice { return bigslice.Scan(bigslice.Const(2, []int{1, 2, 3}), scanFn) }},
 }
